@@ -48,6 +48,17 @@ class World:
         """unstarted: names of Tubs that are created but whose startService() is delayed (World.start);
         third: a third Tub "T" (a plain lookup target, outside the M/S pair the agreement oracle looks at)"""
         E.reset_clock()
+        # an exception raised inside a timer callback / eventual-send is logged by a real reactor and the loop goes on
+        # (task.Clock.advance would propagate it to the harness): emulate the reactor, keep a tally, let the oracle decide
+        self.reactor_errors = []
+        _clk, _adv = E.clock, E.clock.advance
+
+        def _advance(amount, _adv=_adv):
+            try:
+                _adv(amount)
+            except Exception as e:                       # noqa
+                self.reactor_errors.append("%s: %s" % (type(e).__name__, e))
+        _clk.advance = _advance
         self.net = Net()
         (lo_id, lo_pem), (hi_id, hi_pem) = pems_sorted(2)
         self.pem = {"M": hi_pem, "S": lo_pem}
@@ -59,6 +70,7 @@ class World:
         self.results = []                      # one entry per lookup: dict(who, kind, fired=[...])
         self.retry = {"M": None, "S": None}     # armed: the next errback of x re-enters getBrokerForTubRef with k hints
         self.reentered = 0
+        self.fire_seq = 0
         self.dying = None
         self.graveyard = []
         self.started_at = {}
@@ -137,18 +149,22 @@ class World:
     def _issue(self, x, nhints, full, reenter, depth=0, target=None):
         t = self.tub[x]
         rec = dict(who=x, fired=[], epoch=self.epoch[x], t0=E.clock.seconds(), at=[], depth=depth, queued=not t.running,
-                   target=target or other(x))
+                   target=target or other(x), order=[],
+                   id=sum(1 for r in self.results if r["who"] == x and r["epoch"] == self.epoch[x]))
         self.results.append(rec)
         furl = self.furl(target or other(x), nhints)
         if full:
             d = t.getReference(furl)
         else:
             d = t.getBrokerForTubRef(SturdyRef(furl).getTubRef())
+            rec["d"] = d                   # the very Deferred kept in Tub.waitingForBrokers
 
         def fired(res, rec=rec):
             bad = isinstance(res, failure.Failure)
             rec["fired"].append(res.type.__name__ if bad else "ok")
             rec["at"].append(E.clock.seconds())
+            self.fire_seq += 1
+            rec["order"].append(self.fire_seq)
             if self.tub[x] is t and t.running and self.dying != x:
                 # re-entrant lookups, issued from inside the callback / errback
                 if reenter and reenter["left"] > 0 and (reenter["on"] == "both" or (reenter["on"] == "err") == bad):
@@ -367,7 +383,17 @@ class World:
             st = list(t.slave_table.values())
             mt = list(t.master_table.values())
             waiters = sum(len(v) for v in t.waitingForBrokers.values())
-            tubs[x] = dict(broker=(lb[0] if lb else None),
+            byd = {id(r["d"]): r for r in self.results if r["who"] == x and r["epoch"] == self.epoch[x] and "d" in r}
+            wl = []
+            for v in t.waitingForBrokers.values():
+                for d in v:
+                    r = byd.get(id(d))
+                    wl.append((r["id"], int(round(r["t0"]))) if r else (-99, -99))
+            con = self.connector(x)
+            bro = [b for ref, b in t.brokers.items() if ref.getTubID() == self.tubid[y]]
+            tubs[x] = dict(waiting=wl, deadline=(int(round(con.timer.getTime())) if con is not None and con.timer else -1),
+                           bcreated=(int(round(bro[0].creation_timestamp)) if len(bro) == 1 else -1),
+                           broker=(lb[0] if lb else None),
                            master=(mt[0] if mt else 0),
                            slave=((self.ir_code(y, st[0][0]), int(st[0][1])) if st else None),
                            connector=self.connector(x) is not None,
@@ -464,13 +490,26 @@ MSG = {"hello": 1, "decision": 2, "error": 3, "fin": 4}
 
 def obs_codes(w):
     o = w.observe()
-    out = []
+    out = [[int(round(E.clock.seconds()))]]
     for x in NAMES:
         t = o["tubs"][x]
-        fired = sum(len(r["fired"]) for r in w.results if r["who"] == x and r["epoch"] == w.epoch[x])
-        out.append([-1 if t["broker"] is None else t["broker"], t["master"],
-                    -1 if t["slave"] is None else t["slave"][0], -1 if t["slave"] is None else t["slave"][1],
-                    1 if t["connector"] else 0, t["waiters"], fired, 1 if w.retry.get(x) else 0])
+        row = [-1 if t["broker"] is None else t["broker"], t["master"],
+               -1 if t["slave"] is None else t["slave"][0], -1 if t["slave"] is None else t["slave"][1],
+               1 if t["connector"] else 0, t["deadline"] if t["connector"] else -1,
+               t["bcreated"] if t["broker"] is not None else -1, 1 if w.retry.get(x) else 0]
+        for (i, r) in t["waiting"]:
+            row += [i, r]
+        row.append(-7)
+        # every answer: (lookup number, when it was made, when it was answered, callback/errback), in the order answered;
+        # a Deferred that fires twice shows up twice
+        ans = []
+        for r in w.results:
+            if r["who"] == x and r["epoch"] == w.epoch[x]:
+                for k in range(len(r["fired"])):
+                    ans.append((r["order"][k], r["id"], int(round(r["t0"])), int(round(r["at"][k])), 1 if r["fired"][k] == "ok" else 0))
+        for a in sorted(ans):
+            row += list(a[1:])
+        out.append(row)
     for l in o["links"]:
         out.append([0 if l["client"] == "M" else 1, EST.get(l["M"], 8), EST.get(l["S"], 8), 1 if l["cut"] else 0]
                    + [MSG.get(m, 7) for m in l["qMS"]] + [9] + [MSG.get(m, 7) for m in l["qSM"]])
@@ -501,6 +540,23 @@ class Tracer:
             # the application arms an instant retry: its next errback calls getBrokerForTubRef again, synchronously
             w.retry[st[1]] = st[2]
             ops = [("ArmRetry", st[1])]
+        elif kind == "advance":
+            # virtual time passes, but not beyond the next armed timer without that timer firing (lib/Converge.v do_advance)
+            now = E.clock.seconds()
+            due = [dc.getTime() for dc in E.clock.getDelayedCalls() if dc.getTime() > now]
+            dt = int(st[1])
+            if due:
+                dt = min(dt, int(round(min(due) - now)))
+            E.clock.advance(dt)
+            E.turn()
+            ops = [("Advance", dt)]
+        elif kind == "sethandleold":
+            # Tub.setOption on the master (and on every later incarnation of it)
+            w.handle_old = st[1]
+            w.tub["M"]._handle_old_duplicate_connections = False
+            if st[1] is not None:
+                w.tub["M"].setOption("handle-old-duplicate-connections", st[1])
+            ops = [("SetHandleOld", st[1])]
         elif kind == "lookup":
             w.lookup(st[1], st[2], full=False)
             ops = [("GetRef", st[1])]
@@ -536,14 +592,18 @@ class Tracer:
         raise RuntimeError("no quiescence")
 
 
-def random_trace(rng, nsteps, p_restart=0.03, p_cut=0.06, p_timeout=0.04, p_lookup=0.14, p_retry=0.05, maxhints=3):
+def random_trace(rng, nsteps, p_restart=0.03, p_cut=0.06, p_timeout=0.04, p_lookup=0.14, p_retry=0.05, maxhints=3, p_advance=0.08):
     """-> (world, groups) where groups = [(model ops of this step, observation after it, description)]"""
     tr = Tracer()
     w = tr.w
+    if rng.random() < 0.15:
+        tr.apply(("sethandleold", rng.choice([30, 60, 200])))
     for stepno in range(nsteps):
         net_steps = w.pending_steps()
         r = rng.random()
-        if r < p_restart:
+        if rng.random() < p_advance:
+            st = ("advance", rng.choice([1, 5, 30, 60, 119, 120, 121, 500]))
+        elif r < p_restart:
             st = ("restart", rng.choice(NAMES))
         elif r < p_restart + p_cut and any(not getattr(l, "was_cut", False) for l in w.net.links):
             st = ("cut", rng.choice([i for i, l in enumerate(w.net.links) if not getattr(l, "was_cut", False)]))
@@ -581,6 +641,39 @@ def scripted_traces():
             tr.apply(("lookup", other(x), 1))
             tr.drain()
             out.append(tr)
+    for x in NAMES:
+        # virtual time: two lookups at different times share the first one's connector and are answered when ITS timer
+        # fires; the retry armed for the errback gets a connector (and CONNECTION_TIMEOUT) of its own
+        tr = Tracer()
+        for st in [("lookup", x, 2), ("advance", 50), ("lookup", x, 1), ("armretry", x, 1), ("advance", 100), ("advance", 1),
+                   ("advance", 500), ("advance", 500)]:
+            tr.apply(st)
+        tr.drain()
+        out.append(tr)
+        # the listening end's own negotiation timer (SERVER_TIMEOUT): the dialler gives up at once (forced), its FIN is
+        # not delivered; the listener hangs up when its timer fires; a later attempt runs into both timers at once
+        tr = Tracer()
+        for st in [("lookup", x, 1), ("timeout", x), ("advance", 10), ("lookup", x, 2), ("advance", 500), ("advance", 500),
+                   ("advance", 500)]:
+            tr.apply(st)
+        tr.drain()
+        out.append(tr)
+        # an established connection ages; handle-old set on the master; cross-connect afterwards
+        tr = Tracer()
+        tr.apply(("sethandleold", 60))
+        tr.apply(("lookup", x, 1))
+        tr.drain()
+        tr.apply(("advance", 100))
+        tr.apply(("lookup", other(x), 2))
+        tr.apply(("lookup", x, 1))
+        tr.drain()
+        tr.apply(("cut", 0))
+        tr.apply(("advance", 30))
+        tr.apply(("lookup", "M", 2))
+        tr.apply(("lookup", "S", 1))
+        tr.drain()
+        tr.apply(("advance", 1000))
+        out.append(tr)
     for first in NAMES:
         for noticer in NAMES:
             for k in (1, 2):
@@ -707,7 +800,7 @@ def scenario(kind, seed, p):
     """one oracle run; returns (signature suffix | None, text, facts)"""
     rng = _random.Random(seed)
     T = fconn.TubConnector.CONNECTION_TIMEOUT
-    w = World(unstarted=[p["who"]], third=True) if kind == "prestart" else World()
+    w = World(unstarted=[p["who"]], third=True) if kind == "prestart" else World(third=bool(p.get("third")))
     facts = dict(kind=kind)
     chunk = None
     if p.get("bytes"):
@@ -717,6 +810,8 @@ def scenario(kind, seed, p):
             # both dial at once, 1-3 hints each, no faults: must end on ONE shared live connection, both lookups ok
             for x in NAMES:
                 w.lookup(x, p["hints"][x], reenter=(p.get("reenter") or {}).get(x))
+                if p.get("third"):
+                    w.lookup(x, 1, target="T")
             settle(w, rng, chunk)
             bad = agreement_problem(w) or lookups_problem(w, T)
             if bad:
@@ -860,7 +955,11 @@ def scenario(kind, seed, p):
                 stale = w.live_broker_link(y)
                 held = [("closeseen", cur[0], w.end_of(l0, y).side)]
                 n0 = len(w.results)
+                if p.get("third") in ("before", "both"):
+                    w.lookup(noticer, 1, target="T")       # another outbound negotiation of the noticer, set up just before
                 new = w.lookup(noticer, hints)
+                if p.get("third") in ("after", "both"):
+                    w.lookup(noticer, 1 + rnd % 2, target="T")   # ... or within the first round trip of the redial
                 deliver_all_but(w, rng, chunk, held)
                 E.clock.advance(0.5)
                 E.turn()
@@ -878,6 +977,9 @@ def scenario(kind, seed, p):
                             "connection was not replaced: %s has %r (stale %r), %s has %r, lookup result %r, S.slave_table=%r"
                             % (rnd, dialled_by, noticer, noticer, hints, y, by, stale, noticer, bx, w.results[n0]["fired"],
                                facts["slave_table"]), facts)
+                if p.get("third") and any(r["fired"] not in (["ok"],) for r in w.results if r["target"] == "T" and r["fired"]):
+                    return ("lookup", "round %d (%s): a lookup of the third Tub failed without any fault on that path: %r" % (
+                        rnd, tag, [r["fired"] for r in w.results if r["target"] == "T"]), facts)
                 if accepted != 1:
                     return ("redundant-attempt-displaces-established/one-sided-cut",
                             "round %d (%s): %d of %d parallel redial offers were accepted" % (rnd, tag, accepted, hints), facts)
@@ -976,6 +1078,8 @@ def scenario(kind, seed, p):
         else:
             raise ValueError(kind)
     finally:
+        if w.reactor_errors:
+            facts["exceptions_in_timer_callbacks"] = w.reactor_errors[:3]
         w.stop()
     return None, "", facts
 
@@ -1032,6 +1136,17 @@ def run_fixed(ctx):
                 for hints in (1, 2, 3):
                     run_case(ctx, "one-sided-cut", 9000 + hints, dict(first_dialer=first, rounds=[(n1, hints), (n2, 1 + hints % 3), (n1, 1)],
                                                                        bytes=(hints == 2)))
+    # ... the same while the side that noticed has other outbound business: a lookup of a third Tub set up just before /
+    # within the first round trip of the redial (concurrent outbound negotiations with different histories)
+    for first in NAMES:
+        for n1 in NAMES:
+            for third in ("before", "after", "both"):
+                for hints in (1, 2):
+                    run_case(ctx, "one-sided-cut", 9100 + hints, dict(first_dialer=first, rounds=[(n1, hints), (other(n1), 1), (n1, 3 - hints)],
+                                                                       bytes=(hints == 2 and third == "both"), third=third))
+    for sd in range(6):
+        run_case(ctx, "crossfire", 7100 + sd, dict(hints=dict(M=1 + sd % 2, S=1 + sd % 3), bytes=(sd % 3 == 0), relookup=["S", "M"],
+                                                    reenter=dict(M=None, S=None), third=True))
     # lookups queued before Tub.startService(): 1-4 of them, same Tub (different hints) and a different Tub, with and
     # without a simultaneous lookup by the peer, with and without faults afterwards
     Q = [[("peer", 1, None)],
@@ -1074,7 +1189,8 @@ def run_all(ctx):
                                                steps=rng.choice([0, 0, 20, 60]), bytes=(i % 3 == 0)))
     for i in range(ctx.n(30, 1500)):
         rounds = [(rng.choice(NAMES), rng.randint(1, 3)) for k in range(rng.randint(1, 4))]
-        run_case(ctx, "one-sided-cut", seed(), dict(first_dialer=rng.choice(NAMES), rounds=rounds, bytes=(i % 3 == 0)))
+        run_case(ctx, "one-sided-cut", seed(), dict(first_dialer=rng.choice(NAMES), rounds=rounds, bytes=(i % 3 == 0),
+                                                    third=rng.choice([None, None, "before", "after", "both"])))
     for who in NAMES:
         for hist in ("fresh", "both-lost", "dialer-lost-only", "peer-restarted"):
             for hints in (2, 3):
